@@ -73,6 +73,11 @@ class Evaluator:
             tags |= self.ev(k.value, st)
         return tags
 
+    def side_effects(self, call: ast.Call, st) -> dict:
+        """Tags that a call deposits into local names it is handed (``Pickler(buf)`` makes ``buf`` carry what the
+        pickler writes): {name: tags}.  Default: none."""
+        return {}
+
     # -- driver -------------------------------------------------------------------
     def ev(self, e, st):
         if e is None:
@@ -184,6 +189,10 @@ class TagFlow:
     def _mutators(self, expr, st):
         """x.append(v) / x.extend(v) / x.update(v) / x.add(v) / x.setdefault(k, v): x may now hold v."""
         for n in ast.walk(expr):
+            if isinstance(n, ast.Call):
+                for name, tags in self.evr.side_effects(n, st).items():
+                    if tags:
+                        st[name] = st.get(name, EMPTY) | tags
             if isinstance(n, ast.Call) and isinstance(n.func, ast.Attribute) and n.func.attr in ("append", "extend", "update", "insert", "add", "setdefault", "appendleft"):
                 recv = n.func.value
                 nested = False
